@@ -327,6 +327,21 @@ var targetPool = map[string][]string{
 	"ctl":            {"/%09/evil.example", "/%0d%0aSet-Cookie:x=1", "/%00//evil.example", "/\t/evil.example"},
 }
 
+// genTarget composes a request target from hostile fragments.
+func genTarget(r *rand.Rand) string {
+	pre := []string{"/", "//", "///", "/\\", "/\\/", "/%2f", "/%2F%2F", "/%5c", "/.", "/./", "/../", "/..;/", "/;", "/;/", "/@", "/a/..//", "/a/%2e%2e//", "/%2e/", "/?", "/#", "/%09", "/%20", "http://" + hostOwn + "/", "http://" + hostOwn + "//", "http://" + hostOwn + "/\\"}
+	host := []string{"evil.example", "evil.example:80", hostOwn + "@evil.example", "evil.example%2f", "evil.example/..", "%65vil.example", "evil.example\\@" + hostOwn, "[::1]", "evil.example.", "EVIL.example"}
+	tail := []string{"", "/", "/x", "/x?y=//z", "?next=//evil.example", "/%2e%2e", "/..", "//", "/\\x", "#f", "%00", "/a;b=c"}
+	t := pre[r.Intn(len(pre))] + host[r.Intn(len(host))] + tail[r.Intn(len(tail))]
+	if r.Intn(4) == 0 {
+		t = strings.Replace(t, "/", "//", 1+r.Intn(2))
+	}
+	if !strings.HasPrefix(t, "/") && !strings.HasPrefix(t, "http") {
+		t = "/" + t
+	}
+	return t
+}
+
 // TargetClasses lists the classes in a fixed order.
 var TargetClasses = []string{"plain", "query", "encoded", "dotseg", "dslash", "bslash", "enc_dslash", "dot_dslash", "userinfo", "abs_own", "abs_own_dslash", "long", "semicolon", "fragment_like", "ctl"}
 
@@ -520,6 +535,15 @@ func Run(in, out string, seed int64, sample, reps, workers, base int, noshuffle 
 						starts = append(starts, ln)
 						smu.Unlock()
 					}
+				}
+				// seeded compositions of hostile fragments (more of them in thorough, where reps is larger)
+				gr := rand.New(rand.NewSource(seed * 7))
+				for i := 0; i < 40*reps; i++ {
+					ln := w.RunStart(n, "generated", genTarget(gr))
+					n++
+					smu.Lock()
+					starts = append(starts, ln)
+					smu.Unlock()
 				}
 			}
 		}(wk)
